@@ -412,6 +412,36 @@ def iStep (P : Nat) (ctx : Ctx) (st : IState) (k : Candle Rat) (rv : List Rat) (
     let ((v, a), s1) := s.next k
     .ok { vals := v, sigs := [.exact a], st := .sar s1, borderline := near }
 
+/-! ### documented rules the implementation contradicts (known findings of C05/C06; DESIGN §7)
+    The models follow the code; where the documentation of an indicator states the opposite sign or another order, the
+    step that exhibits the contradiction is reported under its own class so that it can be listed once and every other
+    deviation is still caught by the ordinary comparison. -/
+def docCheck (name : String) (so : StepOut) (rv : List Rat) (rsig : List String) : Option (String × String × String) :=
+  let signSlots : List Nat := match name with
+    | "KeltnerChannel" => [0]
+    | "RelativeVigorIndex" => [1]
+    | "TrendStrengthIndex" => [0, 1]
+    | _ => []
+  let s := signSlots.findSome? fun j =>
+    match so.sigs[j]?, rsig[j]? with
+    | some (SigExp.exact a), some tok =>
+      if a != Action.none && tok == actStr a then
+        some ("ind-docsig", s!"{name}:s{j}:sign",
+              s!"s{j}: the documented rule gives {actStr (Action.neg a)} here, the implementation returns {tok}")
+      else none
+    | _, _ => none
+  let v : Option (String × String × String) := match name with
+    | "KeltnerChannel" =>
+      -- documented order: upper bound, source, lower bound; returned: source, upper bound, lower bound
+      match so.vals[0]?, rv[0]?, rv[1]? with
+      | some (VExp.exact src), some r0, some r1 =>
+        if r0 == src && r1 != src then
+          some ("ind-docval", s!"{name}:v1:order", s!"v1: documented as the source value {ratStr src}, the implementation returns the upper bound {ratStr r1} there (and the source in slot 0)")
+        else none
+      | _, _, _ => none
+    | _ => none
+  s <|> v
+
 /-- sources named in the configuration leaves (`v<k>` not followed by a length) -/
 def cfgSources (ts : Toks) : List Source :=
   let rec go : Toks → List Source
@@ -527,6 +557,8 @@ def nonOvershoot (kinds : List String) : Bool :=
 /-- `(slot, lo, hi)` interval constraints, and `(i, j)` pairs meaning `v[i] ≥ v[j]` -/
 structure RangeSpec where
   intervals : List (Nat × Rat × Rat) := []
+  /-- intervals stated in the indicator's documentation that its formula does not imply (reported as `doc-range`) -/
+  docIntervals : List (Nat × Rat × Rat) := []
   orders : List (Nat × Nat) := []
 
 def rangeSpec (name : String) (kinds : List String) : RangeSpec :=
@@ -541,6 +573,9 @@ def rangeSpec (name : String) (kinds : List String) : RangeSpec :=
   | "TrueStrengthIndex" => { intervals := [(0, -1, 1), (1, -1, 1)] }
   | "SMIErgodicIndicator" => if smooth then { intervals := [(0, -1, 1), (1, -1, 1)] } else { intervals := [(0, -1, 1)] }
   | "TrendStrengthIndex" => { intervals := [(0, -1, 1)] }
+  | "ChaikinOscillator" => { docIntervals := [(0, -1, 1)] }
+  | "AverageDirectionalIndex" => if smooth then { docIntervals := [(1, 0, 1), (2, 0, 1)] } else {}
+  | "RelativeVigorIndex" => { docIntervals := if smooth then [(0, -1 / 2, 1 / 2), (1, -1 / 2, 1 / 2)] else [(0, -1 / 2, 1 / 2)] }
   | "BollingerBands" => { orders := [(0, 1), (1, 2)] }
   | "KeltnerChannel" => { orders := [(1, 2)] }
   | "DonchianChannel" => { orders := [(2, 1), (1, 0)] }
@@ -575,6 +610,12 @@ def rangeCheck (c : Ctx) (name : String) (kinds : List String) (k : Candle Rat) 
       else if tr < 0 && sar < k.high then some s!"v0:side downtrend SAR {ratStr sar} below the high {ratStr k.high}"
       else none
     | _ => none
-  bad1 <|> bad2 <|> bad3
+  let bad4 := rs.docIntervals.findSome? fun (i, lo, hi) =>
+    match rv[i]? with
+    | none => none
+    | some y =>
+      let a := c.allow (hi - lo)
+      if y < lo - a || hi + a < y then some s!"v{i}:doc-range value {ratStr y} outside the documented [{ratStr lo}, {ratStr hi}]" else none
+  bad1 <|> bad2 <|> bad3 <|> bad4
 
 end Yata.Drv
